@@ -56,6 +56,7 @@ package ja4
 
 //@ func truncatedSha256 :: in -> s
 //@   props C02,C10
+//@   assigns iface.written
 //@   ensures [C02:truncated-sha256] s == trunc12(in) && len(s) == 12
 
 //@ func sortUint16 :: sl
@@ -70,6 +71,7 @@ package ja4
 //@ func (*JA4Fingerprint).String :: j -> s
 //@   props C02,C10
 //@   requires j != nil
+//@   assigns iface.written
 //@   ensures [C02:a_b_c] s == ja4a(j) ++ "_" ++ trunc12(hexJoin(j.CipherSuites, ",", len(j.CipherSuites))) ++ "_" ++ trunc12(ja4cInput(j))
 
 //@ -- what the pieces are, as functions of the parsed hello -----------------------------------------------
@@ -92,6 +94,8 @@ package ja4
 //@   loop 2 invariant -1 <= rangeindex && rangeindex < len(sve.Versions) || (rangeindex == -1 && len(sve.Versions) == 0)
 //@   loop 2 invariant vers == max(maxVer(chs.Extensions, rangeindex#1), maxNG(sve.Versions, rangeindex+1))
 
+//@ lemma [C02:sni-stays] sniStays(es seq[utls.TLSExtension], k int, n int) induction n from 0 = k <= n && hasSNI(es, k) ==> hasSNI(es, n)
+
 //@ func (*JA4Fingerprint).unmarshalSNI :: j, chs
 //@   props C02,C10
 //@   requires j != nil && chs != nil
@@ -99,6 +103,7 @@ package ja4
 //@   ensures [C02:sni-flag] j.SNI == ite(hasSNI(chs.Extensions, len(chs.Extensions)), 'd', 'i')
 //@   loop 1 invariant -1 <= rangeindex && rangeindex < len(chs.Extensions) || (rangeindex == -1 && len(chs.Extensions) == 0)
 //@   loop 1 invariant !hasSNI(chs.Extensions, rangeindex+1)
+//@   use sniStays(chs.Extensions, rangeindex+1, len(chs.Extensions))
 
 //@ func (*JA4Fingerprint).unmarshalNumberOfCipherSuites :: j, chs
 //@   props C02,C10
